@@ -1,1 +1,2 @@
 pub mod pdu;
+pub mod ds;
